@@ -42,7 +42,8 @@ class World:
         self.nodes: Dict[str, Any] = {}
         self.hosts: List[str] = []
         self.links: List[Any] = []          # Link objects, creation order = model index
-        self.chans: List[Tuple[int, str, List[Any]]] = []  # (hz, freq name, [wireless interfaces]) = model index
+        self.chans: List[Tuple[int, List[Any]]] = []  # (hz, [wireless interfaces on that hz]) = model index; capacity per interface
+        self.conns: Dict[Tuple[str, str], Any] = {}   # (source host, target node) -> RemoteTerminalConnection
         self.ifaces: Dict[str, Any] = {}    # "node:port" -> interface (for nic ops)
         self.ip: Dict[str, str] = {}
         self.ftp: Optional[Tuple[str, str]] = None
@@ -56,8 +57,12 @@ class World:
                 return k, False
         return None
 
+    def icap(self, iface) -> int:
+        """Capacity (bytes, floor) the airspace admits this interface against: looked up by the *name* of its frequency."""
+        return floor_bytes(self.net.airspace.get_frequency_max_capacity_mbps(iface.frequency.name))
+
     def chan_of(self, iface) -> Optional[Tuple[int, int]]:
-        for c, (_, _, ifs) in enumerate(self.chans):
+        for c, (_, ifs) in enumerate(self.chans):
             for i, w in enumerate(ifs):
                 if w is iface:
                     return c, i
@@ -143,8 +148,10 @@ def build(topo: dict) -> World:
     elif kind == "wireless":
         nr = topo.get("routers", 2)
         freqs = topo.get("freqs", ["WIFI_2_4"] * nr)
+        if any(f == ALT_NAME for f in freqs):
+            register_alt_frequency(net.airspace)
         with _quiet():
-            net.airspace.set_frequency_max_capacity_mbps(dict(topo["cap"]))
+            net.airspace.set_frequency_max_capacity_mbps({k: v for k, v in topo["cap"] if k in net.airspace.frequencies})
         rs = []
         for j in range(nr):
             r = WirelessRouter.from_config(config={"type": "wireless-router", "hostname": f"wr{j}", "start_up_duration": 0},
@@ -168,12 +175,12 @@ def build(topo: dict) -> World:
             for i in range(nr):
                 if i != j:
                     r.route_table.add_route(address=f"192.168.{i}.0", subnet_mask="255.255.255.0", next_hop_ip_address=f"10.0.0.{i + 1}")
-        by_hz: Dict[int, Tuple[str, List[Any]]] = {}
+        by_hz: Dict[int, List[Any]] = {}
         for j, r in enumerate(rs):
             ap = r.network_interface[1]
-            by_hz.setdefault(ap.frequency.frequency_hz, (ap.frequency.name, []))[1].append(ap)
+            by_hz.setdefault(int(ap.frequency.frequency_hz), []).append(ap)
         for hz in sorted(by_hz):
-            w.chans.append((hz, by_hz[hz][0], by_hz[hz][1]))
+            w.chans.append((hz, by_hz[hz]))
     else:
         raise ValueError(kind)
     if topo.get("ftp") and len(w.hosts) >= 2:
@@ -188,6 +195,17 @@ def build(topo: dict) -> World:
     if topo.get("tripwire"):
         _install_tripwire(w, topo["tripwire"])
     return w
+
+
+ALT_NAME = "C18_ALT_2_4"   # a second frequency *name* on the hz of WIFI_2_4 ("they will share a bandwidth"), with its own capacity
+
+
+def register_alt_frequency(airspace):
+    """The registry of frequency names is one class-level dict shared by every AirSpace and a name cannot be registered twice,
+    so the alternative name is registered once per process (its capacity is set per case like that of the shipped names)."""
+    if ALT_NAME not in airspace.frequencies:
+        hz = airspace.frequencies["WIFI_2_4"].frequency_hz
+        airspace.register_frequency(ALT_NAME, hz, 100_000_000.0)
 
 
 def _install_tripwire(w: World, spec: dict):
@@ -238,6 +256,13 @@ _Tripwire = None
 _TRIP: Dict[str, Any] = {}
 
 
+def _air_load_of(airspace, hz: int) -> float:
+    for k, v in airspace.bandwidth_load.items():   # keys are whatever `frequency_hz` is (2.4e9 as float for the shipped names)
+        if int(k) == hz:
+            return v
+    return 0.0
+
+
 # ------------------------------------------------------------------------------------------------- recorder
 class Recorder:
     """Class-level wrappers (installed for the duration of one case) around every send_frame, the two admission tests, the two
@@ -257,7 +282,7 @@ class Recorder:
 
     def _air_load(self, c: int) -> int:
         hz = self.w.chans[c][0]
-        return exact_bytes(self.w.net.airspace.bandwidth_load.get(hz, 0.0))
+        return exact_bytes(_air_load_of(self.w.net.airspace, hz))
 
     def take(self) -> List[dict]:
         out = self.top
@@ -292,6 +317,7 @@ class Recorder:
                         att["load0"] = rec._wired_load(where[0])
                     else:
                         att["load0"] = rec._air_load(where[0])
+                        att["capS"] = rec.w.icap(iface)
                     parent = rec.stack[-1]
                     rec.open.append(att)
                     rec.stack.append(att["children"])
@@ -332,6 +358,7 @@ class Recorder:
                     att["sa"] = int(frame.size)
                     att["enS"] = bool(sender_nic.enabled)
                     att["enR"] = bool(other.enabled)
+                    att["far"] = far_query(other, frame)   # before the delivery: receive_frame decrements the TTL in place
                 r = orig(link, sender_nic, frame)
                 if att is not None:
                     att["acc"] = bool(r)
@@ -418,6 +445,24 @@ class Recorder:
         return False
 
 
+def _mac_int(m) -> int:
+    return int(str(m).replace(":", ""), 16) if m else 0   # None (written by route_frame when ARP failed) -> C08's `noMac`
+
+
+def far_query(iface, frame) -> Optional[str]:
+    """What C08's acceptance model needs to know to predict the answer of `iface.receive_frame(frame)`: the `far` line of the driver
+    (without the leading word). None when the frame has no IP layer or the interface is of a kind C08 does not model."""
+    kind = {"NIC": "h", "RouterInterface": "r", "SwitchPort": "s"}.get(type(iface).__name__)
+    if kind is None or frame.ip is None:
+        return None
+    node = iface._connected_node
+    own = [int(ni.ip_address) for ni in node.network_interfaces.values() if getattr(ni, "ip_address", None) is not None] if node else []
+    ip = int(iface.ip_address) if getattr(iface, "ip_address", None) is not None else 0
+    plen = iface.ip_network.prefixlen if getattr(iface, "ip_address", None) is not None else 0
+    return (f"{kind} {int(bool(iface.enabled))} {_mac_int(iface.mac_address)} {ip} {plen} {_mac_int(frame.ethernet.dst_mac_addr)} "
+            f"{int(frame.ip.dst_ip_address)} {int(frame.ip.ttl)} {','.join(str(x) for x in own) or '-'}")
+
+
 # ------------------------------------------------------------------------------------------------- canonical forms
 def verdict_of(att: dict) -> str:
     if att["sc"] is None:
@@ -493,10 +538,9 @@ def dump(w: World) -> str:
     b = lambda x: "1" if x else "0"  # noqa: E731
     ls = [f"L:{floor_bytes(l.bandwidth)}:{exact_bytes(l.current_load)}:{b(l.endpoint_a.enabled)}{b(l.endpoint_b.enabled)}" for l in w.links]
     cs = []
-    for hz, name, ifs in w.chans:
-        cap = floor_bytes(w.net.airspace.get_frequency_max_capacity_mbps(name))
-        load = exact_bytes(w.net.airspace.bandwidth_load.get(hz, 0.0))
-        cs.append(f"C:{cap}:{load}:{''.join(b(i.enabled) for i in ifs)}")
+    for hz, ifs in w.chans:
+        load = exact_bytes(_air_load_of(w.net.airspace, hz))
+        cs.append(f"C:{','.join(str(w.icap(i)) for i in ifs)}:{load}:{''.join(b(i.enabled) for i in ifs)}")
     return " ".join(ls) + " / " + " ".join(cs)
 
 
@@ -527,6 +571,10 @@ def apply_op(w: World, op: list, t: List[int]):
         # payload to the tripwire service on the target host: it toggles an interface during the delivery
         w.nodes[op[1]].software_manager.send_payload_to_session_manager(
             payload=op[3], dest_ip_address=_ip(w.ip[op[2]]), dest_port=_port("FTP_DATA"), ip_protocol=_proto("UDP"))
+    elif kind == "rcmd":
+        # real software toggling an interface while a frame is being delivered: the Terminal of the target node executes a request
+        # received over SSH (`Terminal.receive` -> `Node.apply_request`) before `receive_frame` of the carrying frame has returned
+        _rcmd(w, op[1], op[2], op[3])
     elif kind == "power":
         n = w.nodes[op[1]]
         (n.power_on if op[2] == "on" else n.power_off)()
@@ -547,6 +595,28 @@ def _port(name):
 def _proto(name):
     from primaite.utils.validation.ip_protocol import PROTOCOL_LOOKUP
     return PROTOCOL_LOOKUP[name]
+
+
+def node_ip(w: World, src: str, dst: str) -> str:
+    """Address under which host `src` reaches node `dst`: a host's own address; a router's address on `src`'s subnet."""
+    if dst in w.ip:
+        return w.ip[dst]
+    gw = w.nodes[src].config.default_gateway
+    return str(gw)
+
+
+def _rcmd(w: World, src: str, dst: str, request: list):
+    term = w.nodes[src].software_manager.software.get("terminal")
+    if term is None:
+        return
+    key = (src, dst)
+    conn = w.conns.get(key)
+    if conn is None or not getattr(conn, "is_active", True):
+        conn = term.login(username="admin", password="admin", ip_address=_ip(node_ip(w, src, dst)))
+        if not conn:
+            return
+        w.conns[key] = conn
+    conn.execute(list(request))
 
 
 def _burst(w: World, src: str, dst: str, length: int, count: int):
@@ -623,20 +693,20 @@ def build_scenario(sc: dict) -> World:
     w.net = env.game.simulation.network
     w.links = list(w.net.links.values())
     w.nodes = dict(w.net.nodes) if isinstance(w.net.nodes, dict) else {}
-    by_hz: Dict[int, Tuple[str, List[Any]]] = {}
+    by_hz: Dict[int, List[Any]] = {}
     for node in w.net.nodes.values():
         for ni in node.network_interfaces.values():
             if hasattr(ni, "airspace") and hasattr(ni, "frequency") and type(ni).__name__ == "WirelessAccessPoint" \
                     and type(ni).__module__.endswith("wireless_router"):
-                by_hz.setdefault(ni.frequency.frequency_hz, (ni.frequency.name, []))[1].append(ni)
+                by_hz.setdefault(int(ni.frequency.frequency_hz), []).append(ni)
     for hz in sorted(by_hz):
-        w.chans.append((hz, by_hz[hz][0], by_hz[hz][1]))
+        w.chans.append((hz, by_hz[hz]))
     return w
 
 
 def _caps(w: World):
-    return ([floor_bytes(l.bandwidth) for l in w.links],
-            [floor_bytes(w.net.airspace.get_frequency_max_capacity_mbps(name)) for _, name, _ in w.chans])
+    """Wired: bandwidth per link. Wireless: per channel (hz) the capacity of every interface's frequency name."""
+    return ([floor_bytes(l.bandwidth) for l in w.links], [[w.icap(i) for i in ifs] for _, ifs in w.chans])
 
 
 def run_impl(case: dict) -> dict:
@@ -649,29 +719,43 @@ def run_impl(case: dict) -> dict:
     lines: List[str] = []
     for l in w.links:
         lines.append(f"link {floor_bytes(l.bandwidth)} {int(bool(l.endpoint_a.enabled))} {int(bool(l.endpoint_b.enabled))}")
-    for hz, name, ifs in w.chans:
-        cap = floor_bytes(w.net.airspace.get_frequency_max_capacity_mbps(name))
-        lines.append(f"chan {cap} " + " ".join(str(int(bool(i.enabled))) for i in ifs))
+    for hz, ifs in w.chans:
+        lines.append(f"chan {','.join(str(w.icap(i)) for i in ifs)} " + " ".join(str(int(bool(i.enabled))) for i in ifs))
     impl = ["ok"] * len(lines)
     forests: List[List[dict]] = []
     oracle: List[dict] = []
     lcap, ccap = _caps(w)
     carried = {}      # (medium, k) -> bytes carried since the last tick boundary
-    disabled = set()  # wired links that had an end interface disabled since the last tick boundary
+    sent_under = {}   # (channel, C) -> bytes sent since the last tick boundary by interfaces whose name's capacity is <= C
     t = [1]
+
+    forest_ops: List[int] = []
+    info: Dict[str, int] = {}
+    far_seen = set()
 
     def segment(oi: int, seg: List[dict], after: str):
         forests.append(seg)
+        forest_ops.append(oi)
         lines.append(("act " + " ".join(tokens(seg))).strip())
         impl.append(" ".join(recs(seg)) + " | " + after)
+        # the far interface's answer against C08's acceptance model, once per distinct question
+        for e in walk(seg):
+            if e["t"] == "S" and e["tx"]:
+                if e.get("far") is None:
+                    info["far-answer-not-modelled"] = info.get("far-answer-not-modelled", 0) + 1
+                elif (e["far"], e["acc"]) not in far_seen:
+                    far_seen.add((e["far"], e["acc"]))
+                    lines.append("far " + e["far"])
+                    impl.append("1" if e["acc"] else "0")
+                    info["far-answer:" + e["far"][0] + (":taken" if e["acc"] else ":refused")] = info.get(
+                        "far-answer:" + e["far"][0] + (":taken" if e["acc"] else ":refused"), 0) + 1
         # implementation-side oracle, independent of the model
         for e in walk(seg):
-            if e["t"] == "E" and not e["v"]:
-                disabled.add(e["k"])
             if e["t"] not in ("S", "W"):
                 continue
             medium = "wired" if e["t"] == "S" else "wireless"
-            cap = lcap[e["k"]] if e["t"] == "S" else ccap[e["k"]]
+            # wireless: the load of a hz is bounded by the largest capacity of the frequency names configured on it
+            cap = lcap[e["k"]] if e["t"] == "S" else max(ccap[e["k"]])
             if e["load1"] > cap:
                 oracle.append({"kind": "load-exceeds-bandwidth", "op": oi, "medium": medium, "k": e["k"], "load": e["load1"], "cap": cap,
                                "nested": bool(e["children"])})
@@ -686,29 +770,39 @@ def run_impl(case: dict) -> dict:
             if e["sc"] is not None and not e["can"] and (e["children"] or e["tx"]):
                 oracle.append({"kind": "refused-frame-was-transmitted", "op": oi, "medium": medium, "k": e["k"]})
         # the property read literally: bytes carried since the tick began, counted by the rig itself (post-order = completion order)
+        # (no exemption for interfaces disabled within the tick any more: F-40 is repaired)
         def count(forest):
             for e in forest:
-                if e["t"] == "E" and not e["v"]:
-                    pass
                 if e["t"] not in ("S", "W"):
                     continue
                 if e["tx"] and e["acc"]:
                     count(e["children"])
                     key = ("wired" if e["t"] == "S" else "wireless", e["k"])
                     carried[key] = carried.get(key, 0) + e["sa"]
-                    cap = lcap[e["k"]] if e["t"] == "S" else ccap[e["k"]]
+                    cap = lcap[e["k"]] if e["t"] == "S" else max(ccap[e["k"]])
                     if carried[key] > cap:
-                        cause = ("interface-disabled-within-the-tick" if key[0] == "wired" and e["k"] in disabled else "unexplained")
                         oracle.append({"kind": "carried-data-exceeds-bandwidth", "op": oi, "medium": key[0], "k": e["k"],
-                                       "carried": carried[key], "cap": cap, "cause": cause})
+                                       "carried": carried[key], "cap": cap})
+                    if e["t"] == "W":
+                        # per frequency name: what the interfaces admitted against a capacity <= C have sent stays within C
+                        for C in sorted(set(ccap[e["k"]])):
+                            if e["capS"] <= C:
+                                sent_under[(e["k"], C)] = sent_under.get((e["k"], C), 0) + e["sa"]
+                                if sent_under[(e["k"], C)] > C:
+                                    oracle.append({"kind": "data-sent-under-a-frequency-name-exceeds-its-capacity", "op": oi,
+                                                   "medium": "wireless", "k": e["k"], "sent": sent_under[(e["k"], C)], "cap": C})
         count(seg)
         for k, l in enumerate(w.links):
             if not l.current_load <= l.bandwidth:
                 oracle.append({"kind": "load-exceeds-bandwidth", "op": oi, "medium": "wired", "k": k, "load": exact_bytes(l.current_load),
                                "cap": lcap[k], "at": "end-of-op"})
-        for hz, name, ifs in w.chans:
-            if not w.net.airspace.bandwidth_load.get(hz, 0.0) <= w.net.airspace.get_frequency_max_capacity_mbps(name):
+        for hz, ifs in w.chans:
+            caps_f = [w.net.airspace.get_frequency_max_capacity_mbps(i.frequency.name) for i in ifs]
+            if not _air_load_of(w.net.airspace, hz) <= max(caps_f):
                 oracle.append({"kind": "load-exceeds-bandwidth", "op": oi, "medium": "wireless", "k": hz, "at": "end-of-op"})
+            elif _air_load_of(w.net.airspace, hz) > min(caps_f):
+                # not a violation (see C18_air_two_names_counterexample): the hz is above the capacity of its smaller name
+                info["hz-load-above-the-smaller-of-two-name-capacities"] = info.get("hz-load-above-the-smaller-of-two-name-capacities", 0) + 1
 
     with Recorder(w) as rec:
         for oi, op in enumerate(case["ops"]):
@@ -733,8 +827,9 @@ def run_impl(case: dict) -> dict:
                     if not l.current_load <= l.bandwidth:
                         oracle.append({"kind": "load-exceeds-bandwidth", "op": oi, "medium": "wired", "k": k,
                                        "load": exact_bytes(l.current_load), "cap": lcap[k], "at": "after-exception"})
-                for hz, name, ifs in w.chans:
-                    if not w.net.airspace.bandwidth_load.get(hz, 0.0) <= w.net.airspace.get_frequency_max_capacity_mbps(name):
+                for hz, ifs in w.chans:
+                    if not _air_load_of(w.net.airspace, hz) <= max(w.net.airspace.get_frequency_max_capacity_mbps(i.frequency.name)
+                                                                    for i in ifs):
                         oracle.append({"kind": "load-exceeds-bandwidth", "op": oi, "medium": "wireless", "k": hz, "at": "after-exception"})
                 break
             seg: List[dict] = []
@@ -752,7 +847,7 @@ def run_impl(case: dict) -> dict:
                 if not e["zero"]:
                     oracle.append({"kind": "load-not-zero-after-tick", "op": oi, "medium": "any"})
                 carried.clear()
-                disabled.clear()
+                sent_under.clear()
             if seg or op[0] not in ("tick", "step"):
                 segment(oi, seg, dump(w))
         else:
@@ -763,7 +858,7 @@ def run_impl(case: dict) -> dict:
             w.env.close()
         except Exception:
             pass
-    return {"lines": lines, "impl": impl, "forests": forests, "oracle": oracle}
+    return {"lines": lines, "impl": impl, "forests": forests, "forest_ops": forest_ops, "oracle": oracle, "info": info}
 
 
 # ------------------------------------------------------------------------------------------------- generation
@@ -800,6 +895,13 @@ def gen_case(rng: Rng, max_ops: int = 14) -> dict:
         topo["freqs"] = [("WIFI_5" if rng.chance(1, 5) else "WIFI_2_4") for _ in range(nl)]
         cap = gen_bw(rng, True) * rng.choice([1, 1, 2, 3])
         topo["cap"] = [["WIFI_2_4", cap], ["WIFI_5", gen_bw(rng, True)]]
+        if rng.chance(1, 3):
+            # two frequency names on one hz: some access points use the alternative name, which has its own capacity
+            # (smaller, larger, or equal) while the load is shared
+            for j in range(nl):
+                if topo["freqs"][j] == "WIFI_2_4" and (j == nl - 1 or rng.chance(1, 2)):
+                    topo["freqs"][j] = ALT_NAME
+            topo["cap"].append([ALT_NAME, rng.choice([cap, cap * 2, cap / 2, gen_bw(rng, True), gen_bw(rng, True) * 3])])
     topo["bw"] = [gen_bw(rng, tight if kind != "wireless" else rng.chance(1, 2)) for _ in range(nl)]
     topo["ftp"] = rng.chance(1, 3)
     hosts = [f"h{j}" for j in range(topo.get("hosts", topo.get("routers", 2)))]
@@ -817,11 +919,23 @@ def gen_case(rng: Rng, max_ops: int = 14) -> dict:
         topo["tripwire"] = {"host": tgt_host, "target": rng.choice(ifaces)}
     ops: List[list] = []
     n = rng.range(3, max_ops)
+    # targets of remote terminal commands: the other hosts, and the router(s) with all their ports
+    rtargets: List[Tuple[str, int]] = [(h, 1) for h in hosts]
+    if kind == "router":
+        rtargets += [("r", p) for p in range(1, len(hosts) + 1)] * 2
+    elif kind == "wireless":
+        rtargets += [(f"wr{j}", p) for j in range(len(hosts)) for p in (1, 2)]
+    terminal = rng.chance(1, 3)
     for _ in range(n):
         r = rng.below(100)
         a = rng.choice(hosts)
         b = rng.choice([h for h in hosts if h != a])
-        if r < 30:
+        if terminal and r >= 20 and r < 34:
+            tgt, port = rng.choice([t for t in rtargets if t[0] != a])
+            if kind == "wireless" and tgt.startswith("wr"):
+                tgt = "wr" + a[1:]          # a host reaches its own wireless router by the gateway address
+            ops.append(["rcmd", a, tgt, ["network_interface", port, rng.choice(["disable", "disable", "enable"])]])
+        elif r < 30:
             ops.append(["ping", a, b, rng.choice([1, 1, 2, 4])])
         elif r < 38:
             ip = rng.choice(["192.168.0.77", "192.168.0.99"]) if rng.chance(1, 2) else None
